@@ -52,6 +52,8 @@ def key_label(rank, kind):
         return pd.Timestamp(EPOCH + rank * DAY)
     if kind == "dttz":
         return pd.Timestamp(EPOCH + rank * DAY, tz="UTC").tz_convert(KEY_TZ)
+    if kind == "date":
+        return pd.Timestamp(EPOCH + rank * DAY).date()
     if kind == "bool":
         return bool(rank)
     raise ValueError(kind)
@@ -93,6 +95,23 @@ def make_key(col, kind, container="numpy", index=None, name=None, chunks=None, n
                 pieces.append(pa_arr.slice(st, ln))
                 st += ln
             return pa.chunked_array(pieces, type=pa_arr.type)
+    elif kind == "date":
+        # calendar dates (Arrow date32 / polars Date): NumPy and plain pandas have no such dtype, those containers hold an
+        # Arrow-backed Series
+        days = np.array([np.datetime64("NaT", "D") if r is None else (EPOCH + r * DAY).astype("datetime64[D]") for r in col], dtype="datetime64[D]")
+        pa_arr = pa.array(days, type=pa.date32())
+        if container == "polars":
+            return pl.Series(name or "", pa_arr)
+        if container == "arrow":
+            return pa_arr
+        if container == "arrow_chunked":
+            chunks = chunks or [len(col)]
+            pieces, st = [], 0
+            for ln in chunks:
+                pieces.append(pa_arr.slice(st, ln))
+                st += ln
+            return pa.chunked_array(pieces, type=pa_arr.type)
+        return pd.Series(pd.arrays.ArrowExtensionArray(pa_arr), index=index, name=name)
     elif kind == "bool":
         arr = np.array([bool(r) for r in col], dtype=bool)
     elif kind == "cat":
@@ -145,6 +164,10 @@ def label_to_rank(label, kind):
         return int(round((float(label) + 2.0) / 1.5))
     if kind in ("str", "cat"):
         return STR.index(str(label))
+    if kind == "date":
+        if isinstance(label, (pd.Timestamp, np.datetime64)) or not hasattr(label, "toordinal"):
+            return "not-a-date"          # the label of a date key must be a calendar date, not a timestamp
+        return int((np.datetime64(label, "ns") - EPOCH) // DAY)
     if kind == "dttz":
         ts = pd.Timestamp(label)
         if ts.tzinfo is None:
